@@ -431,7 +431,7 @@ func (enc Encryptor) encryptZeroSkFromC1(sk *SecretKey, ct Element[ring.Poly], c
 		ringQ.Add(c0, e, c0)
 	} else {
 		ringQ.INTT(c0, c0)
-		if ct.Degree() == 1 {
+		if ct.Degree() >= 1 {
 			ringQ.INTT(c1, c1)
 		}
 
